@@ -710,12 +710,12 @@ def known_finding_obligation(p_std, tier, log_dir, kf):
     return r
 
 
-def run(tier, seed, jobs):
+def run(tier, seed, jobs, pid="C04"):
     import concurrent.futures
     log = {}
-    log_dir = os.path.join(common.WORK_DIR, "C04", "smt-" + tier)
+    log_dir = os.path.join(common.WORK_DIR, pid, "smt-" + tier)
     os.makedirs(log_dir, exist_ok=True)
-    say(f"[C04] E2: dumping MIR of incan_core / incan_stdlib from {common.REPO}")
+    say(f"[{pid}] E2: dumping MIR of incan_core / incan_stdlib from {common.REPO}")
     p_std, p_core = load_program(log)
     replay_bin(log_dir)
     obs = build_obligations(p_std, p_core, tier, log_dir)
@@ -743,7 +743,10 @@ def run(tier, seed, jobs):
             say(f"  [{r['status']:>12}] {r['id']}  ({r.get('wall_s', '?')} s) {r.get('solver', '')}" +
                 (f" -- {r.get('reason')}" if r["status"] == "inconclusive" else ""))
             results.append(r)
-    kfs = [k for k in common.load_known_findings().get("findings", []) if k.get("property") == "C04"]
+    kfs = [k for k in common.load_known_findings().get("findings", []) if k.get("property") == "C04" and pid == "C04"]
+    if pid != "C04":
+        # another property re-using these obligations: the recorded C04 finding is excluded as a class, not re-reported
+        results = [r for r in results]
     for kf in kfs:
         results.append(known_finding_obligation(p_std, tier, log_dir, kf))
     assumptions = [
@@ -772,6 +775,11 @@ GEN_DIR = os.path.join(common.WORK_DIR, "gen_replay")
 
 def gen_native_call(rust_path, arg_exprs, log_dir):
     """Call an arbitrary pub function of the working tree natively (dev + release) through a generated one-file crate."""
+    with common.global_lock("gen-replay"):
+        return _gen_native_call(rust_path, arg_exprs, log_dir)
+
+
+def _gen_native_call(rust_path, arg_exprs, log_dir):
     os.makedirs(os.path.join(GEN_DIR, "src"), exist_ok=True)
     with open(os.path.join(GEN_DIR, "Cargo.toml"), "w") as f:
         f.write('[package]\nname = "gen_replay"\nversion = "0.0.0"\nedition = "2021"\n[workspace]\n[dependencies]\n'
